@@ -125,6 +125,48 @@ def check(ctx: Ctx) -> None:
                                           'current path loss / may be a stale or unset cache'
                                           % (n.attr, sorted(RAW_READERS)), fn.path, n.lineno, operand=n.attr)
     _check_corrupt(ctx)
+    _check_blocks(ctx)
+
+
+def _check_blocks(ctx: Ctx) -> None:
+    """C08.d: sub-blocks are cut with consecutive entries of the cumulative antenna counts, rows from the receive
+    counts and columns from the transmit counts."""
+    from ..astutil import cumulative_slices, cumulative_vectors
+    M = ctx.model
+    ctx.rule('C08.d', 'blocks are cut as [cumNr[i]:cumNr[i+1], cumNt[j]:cumNt[j+1]] with rows from receive and columns from '
+                      'transmit antenna counts', floor=8)
+    targets = [(PATH, 'MultiUserChannelMatrix._from_small_matrix_to_big_matrix'), (PATH, 'MultiUserChannelMatrix.corrupt_data'),
+               (PATH, 'MultiUserChannelMatrixExtInt.calc_cov_matrix_extint_without_noise'),
+               ('pyphysim/util/conversion.py', 'single_matrix_to_matrix_of_matrices')]
+    for path, q in targets:
+        fn = M.func(path, q)
+        cums = cumulative_vectors(fn)
+        if not cums:
+            ctx.error('C08.d: %s no longer builds cumulative antenna counts with hstack([0, cumsum(.)]) (idiom unknown)' % q)
+        for sl, cname, idx, ok in cumulative_slices(fn, cums):
+            construct = '%s:%s[%s]' % (q, cname, idx)
+            ctx.instance('C08.d', construct)
+            ctx.obligation('C08.d', construct, ok, {'slice': norm(sl), 'cumulative_of': cums[cname]})
+            if not ok:
+                ctx.violation('C08.d', q, 'the block bound `%s` does not run from %s[%s] to %s[%s + 1]: the view of one receiver/transmitter '
+                              'is cut with the wrong antenna range' % (norm(sl), cname, idx, cname, idx), fn.path, sl.lower.lineno,
+                              operand='bounds:' + cname)
+        # rows use the receive-derived vector, columns the transmit-derived one
+        for n in ast.walk(fn.node):
+            if isinstance(n, ast.Subscript) and isinstance(n.slice, ast.Tuple) and len(n.slice.elts) == 2:
+                r, c = n.slice.elts
+                for pos, e, want in ((0, r, ('nr', 'nrow')), (1, c, ('nt', 'ncol'))):
+                    if isinstance(e, ast.Slice) and isinstance(e.lower, ast.Subscript) and isinstance(e.lower.value, ast.Name) \
+                            and e.lower.value.id in cums:
+                        src = cums[e.lower.value.id].lower()
+                        construct = '%s:%s-axis' % (q, 'row' if pos == 0 else 'column')
+                        ctx.instance('C08.d', construct)
+                        ok = any(w in src for w in want)
+                        ctx.obligation('C08.d', construct, ok, {'axis': pos, 'cumulative_of': cums[e.lower.value.id]}, nontrivial=False)
+                        if not ok:
+                            ctx.violation('C08.d', q, 'the %s range of a block is taken from the cumulative sum of `%s`'
+                                          % ('row' if pos == 0 else 'column', cums[e.lower.value.id]), fn.path, n.lineno,
+                                          operand='axis:%d' % pos)
 
 
 def _check_corrupt(ctx: Ctx) -> None:
@@ -247,6 +289,11 @@ MUTANTS = [
     Mutant('revert-fix-e6e8d5c-init_from', PATH, 'MultiUserChannelMatrix.init_from_channel_matrix',
            [('delete', r'self\._update_pathloss_big_matrix\(\)')],
            r'C08\.a:MultiUserChannelMatrix\.init_from_channel_matrix:_pathloss_big_matrix'),
+    Mutant('per-receiver-split-off-by-one', PATH, 'MultiUserChannelMatrix.corrupt_data',
+           [('replace', 'cumNr[k]:cumNr[k + 1]', 'cumNr[k]:cumNr[k] + 1')], r'C08\.d:MultiUserChannelMatrix\.corrupt_data'),
+    Mutant('big-matrix-columns-from-Nr', PATH, 'MultiUserChannelMatrix._from_small_matrix_to_big_matrix',
+           [('replace', 'cumNt = np.hstack([0, np.cumsum(Nt)])', 'cumNt = np.hstack([0, np.cumsum(Nr)])')],
+           r'C08\.d:MultiUserChannelMatrix\._from_small_matrix_to_big_matrix'),
     # benign edits
     Mutant('benign-reorder-resets', PATH, 'MultiUserChannelMatrix.set_pathloss',
            [('regex', r'(self\._big_H_with_pathloss = None)\n(\s*)(self\._H_with_pathloss = None)', r'\3\n\2\1')],
